@@ -77,7 +77,7 @@ def quiet(fn, *a, **k):
 GPA = 14710.507848260711      # 1 Ry/bohr^3 in GPa
 
 
-def synthetic_texts(seed=0, nv=8, nq=3, na=2, system="orthorhombic", lattice=True, gamma_first=True):
+def synthetic_texts(seed=0, nv=8, nq=3, na=2, system="orthorhombic", lattice=True, gamma_first=True, static_order="descending", static_nv=None):
     """-> (input01 text, input02 text, description dict).  E(V) quadratic in Eulerian strain (B0 ~ 200 GPa), power-law modes with mode-dependent Grueneisen parameters"""
     import io as _io
     from cij.io.traditional import qha_input as qi
@@ -113,18 +113,34 @@ def synthetic_texts(seed=0, nv=8, nq=3, na=2, system="orthorhombic", lattice=Tru
     base = {"c11": 460.0, "c22": 430.0, "c33": 380.0, "c12": 160.0, "c13": 110.0, "c23": 95.0, "c44": 115.0, "c55": 105.0, "c66": 150.0, "c14": -15.0, "c15": 25.0, "c25": 12.0, "c35": -9.0,
             "c46": 7.0}
     slope = {k: float(rnd.uniform(2.5, 5.5)) for k in base}
-    lines = ["V_0 N cellmass synthetic", "%.8f %d %.3f" % (V0, nv, 180.5 + seed), "V " + " ".join(comps)]
-    for i in range(nv):
-        lines.append("%.8f " % V[i] + " ".join("%.4f" % (base[k] * (1.0 + slope[k] * f[i])) for k in comps))
+    # the static table has its own volumes (static_nv of them, in the order static_order): it need not be tabulated at the phonon volumes nor listed the same way
+    Vs = V if static_nv is None else numpy.linspace(630.0, 490.0, static_nv)
+    order = list(range(len(Vs)))
+    if static_order == "ascending":
+        order = order[::-1]
+    elif static_order == "shuffled":
+        order = list(rnd.permutation(len(Vs)))
+    Vs = Vs[order]
+    fs = ((V0 / Vs) ** (2.0 / 3.0) - 1.0) / 2.0
+    lines = ["V_0 N cellmass synthetic", "%.8f %d %.3f" % (V0, len(Vs), 180.5 + seed), "V " + " ".join(comps)]
+    table = {"V": [float("%.8f" % v) for v in Vs], "columns": {k: [] for k in comps}, "lattice": []}
+    for i in range(len(Vs)):
+        vals = ["%.4f" % (base[k] * (1.0 + slope[k] * fs[i] + 2.0 * slope[k] * fs[i] ** 2 - 30.0 * fs[i] ** 3)) for k in comps]
+        for k, x in zip(comps, vals):
+            table["columns"][k].append(float(x))
+        lines.append("%.8f " % Vs[i] + " ".join(vals))
     if lattice:
         lines.append(" lattice_a lattice_b lattice_c ")
         r = numpy.array([1.0, 1.12, 0.93])
-        for i in range(nv):
-            ratio = r * (1.0 + numpy.array([0.15, -0.1, -0.05]) * f[i])
-            a = (V[i] / numpy.prod(ratio)) ** (1.0 / 3.0) * ratio
-            lines.append(" ".join("%.6f" % x for x in a))
+        for i in range(len(Vs)):
+            ratio = r * (1.0 + numpy.array([0.15, -0.1, -0.05]) * fs[i] + numpy.array([0.5, 0.2, -0.7]) * fs[i] ** 2)
+            a = (Vs[i] / numpy.prod(ratio)) ** (1.0 / 3.0) * ratio
+            row = ["%.6f" % x for x in a]
+            table["lattice"].append([float(x) for x in row])
+            lines.append(" ".join(row))
     t2 = "\n".join(lines) + "\n"
-    return t1, t2, {"V": V.tolist(), "nq": nq, "na": na, "system": system, "lattice": lattice, "gamma_first": gamma_first, "weights": weights}
+    return t1, t2, {"V": V.tolist(), "nq": nq, "na": na, "system": system, "lattice": lattice, "gamma_first": gamma_first, "weights": weights, "static_order": static_order,
+                    "table": table}
 
 
 def synthetic_case(seed=0, settings=None, **kw):
